@@ -39,13 +39,15 @@ pub fn start_server(args: &[String]) -> Result<Server> {
 pub struct Resp { pub status: u16, pub headers: HashMap<String, String>, pub body: Vec<u8> }
 
 /// one raw request; None = no complete HTTP response (dropped connection)
-pub fn raw_get(port: u16, target: &str, extra_headers: &[(&str, &str)]) -> Option<Resp> {
+pub fn raw_get(port: u16, target: &str, extra_headers: &[(&str, &str)]) -> Option<Resp> { raw_get_bytes(port, target.as_bytes(), extra_headers) }
+/// the request target is sent byte for byte (it need not be UTF-8)
+pub fn raw_get_bytes(port: u16, target: &[u8], extra_headers: &[(&str, &str)]) -> Option<Resp> {
 	let mut s = TcpStream::connect(("127.0.0.1", port)).ok()?;
 	s.set_read_timeout(Some(Duration::from_secs(10))).ok()?;
-	let mut req = format!("GET {target} HTTP/1.1\r\nHost: localhost\r\nConnection: close\r\n");
-	for (k, v) in extra_headers { req.push_str(&format!("{k}: {v}\r\n")); }
-	req.push_str("\r\n");
-	s.write_all(req.as_bytes()).ok()?;
+	let mut req: Vec<u8> = b"GET ".to_vec(); req.extend_from_slice(target); req.extend_from_slice(b" HTTP/1.1\r\nHost: localhost\r\nConnection: close\r\n");
+	for (k, v) in extra_headers { req.extend_from_slice(format!("{k}: {v}\r\n").as_bytes()); }
+	req.extend_from_slice(b"\r\n");
+	s.write_all(&req).ok()?;
 	let mut buf = Vec::new();
 	let _ = s.read_to_end(&mut buf);
 	let pos = buf.windows(4).position(|w| w == b"\r\n\r\n")?;
@@ -130,17 +132,32 @@ pub fn run_c05(ctx: &Ctx) -> Result<()> {
 		// (1) path parsing vs the model, on the everywhere-defined source
 		let mut paths: Vec<String> = vec!["", "/", "//", "1", "1/2", "1/1/1", "0/0/0", "3/7/7", "3/8/8", "31/0/0", "32/0/0", "255/0/0", "256/0/0", "-1/0/0", "+1/+0/+1", "01/001/01",
 			"1/1/1.pbf", "1/1/1.png.gz", "1/1/1abc", "1/1/abc", "1/x/1", "z/1/1", "1/1/", "1//1/1", "1/1/1/9/9", "1.0/1/1", "1/1e0/1", "1/4294967295/0", "1/4294967296/0", "1/1/4294967296",
-			"meta.json", "tiles.json", "tiles.json/x", "other.json", "1/1/ 1", "1/ 1/1", "1/1/+1", "1/1/-1", "20/1048575/1048575", "3/1/99"].iter().map(|s| s.to_string()).collect();
+			"meta.json", "tiles.json", "tiles.json/x", "other.json", "1/1/ 1", "1/ 1/1", "1/1/+1", "1/1/-1", "20/1048575/1048575", "3/1/99",
+			// non-ASCII characters sent as raw UTF-8 (no percent-decoding happens): digits of other scripts (Nd), letter and other
+			// numbers (Nl, No), which char::is_numeric accepts and str::parse does not; letters; 2-, 3- and 4-byte sequences
+			"1/0/\u{663}.pbf", "1/0/1\u{663}", "1/0/1\u{663}.pbf", "1/0/\u{b2}", "1/0/1\u{b2}.pbf", "1/0/\u{967}.pbf", "1/0/1\u{967}2.pbf", "1/0/\u{ff11}", "1/0/1\u{2167}.png",
+			"1/0/\u{bd}", "1/0/\u{1d7d9}", "1/0/1\u{1d7d9}.pbf", "1/0/\u{e9}", "1/0/1\u{e9}", "1/0/1.\u{663}", "1/0/1\u{1f600}", "1/\u{663}/0", "\u{663}/0/0", "1\u{663}/0/0", "1/1\u{b2}/1",
+			"\u{663}", "\u{663}/\u{663}", "meta.json\u{663}", "1/0/\u{663}\u{664}\u{665}", "1/0/12345678901\u{663}", "1/0/\u{3007}", "1/0/1\u{3007}.pbf", "2/3/3\u{0}"].iter().map(|s| s.to_string()).collect();
 		for _ in 0..(if ctx.thorough { 400 } else { 80 }) {
-			let part = |rng: &mut Rng| -> String { match rng.below(8) { 0 => "".into(), 1 => rng.below(40).to_string(), 2 => format!("{}x", rng.below(9)), 3 => "+3".into(), 4 => "a".into(), 5 => "007".into(), 6 => rng.below(300).to_string(), _ => rng.below(4).to_string() } };
+			let part = |rng: &mut Rng| -> String { match rng.below(10) { 8 => format!("{}{}", rng.below(3), ['\u{663}', '\u{b2}', '\u{967}', '\u{ff11}', '\u{e9}', '\u{1d7d9}', '\u{2167}'][rng.below(7) as usize]), 9 => format!("{}{}", ['\u{664}', '\u{b3}', '\u{4e09}', '\u{bc}'][rng.below(4) as usize], rng.below(3)), 0 => "".into(), 1 => rng.below(40).to_string(), 2 => format!("{}x", rng.below(9)), 3 => "+3".into(), 4 => "a".into(), 5 => "007".into(), 6 => rng.below(300).to_string(), _ => rng.below(4).to_string() } };
 			let n = rng.range(0, 5); paths.push((0..n).map(|_| part(&mut rng)).collect::<Vec<_>>().join("/"));
 		}
 		for p in &paths {
-			if p.contains(' ') { continue; } // not a valid request target; hyper answers 400 itself
+			if p.contains(' ') || p.contains('\0') { continue; } // not a valid request target; hyper answers 400 itself
 			let r = raw_get(srv.port, &format!("/tiles/all/{p}"), &[]);
 			let txt = match &r { None => "dropped".to_string(), Some(r) => r.status.to_string() };
-			col.out.line(&format!("tilepath /{p} => {txt}"));
+			// the non-ASCII scalar values of the path that std's char::is_numeric accepts (the model's `numeric` parameter)
+			let mut nums: Vec<u32> = p.chars().filter(|c| !c.is_ascii() && c.is_numeric()).map(|c| c as u32).collect(); nums.sort(); nums.dedup();
+			let numarg = if nums.is_empty() { String::new() } else { format!(" {}", nums.iter().map(|n| n.to_string()).collect::<Vec<_>>().join(",")) };
+			col.out.line(&format!("tilepath /{p}{numarg} => {txt}"));
 			if r.is_none() { col.violation("dropped-connection", &format!("GET /tiles/all/{p}"), &format!("tilepath /{p}"), "no complete HTTP response"); }
+		}
+		// (1b) request targets that are not UTF-8 (hyper accepts bytes >= 0x80 in a path): any complete response will do
+		for tail in [&b"1/0/\xff"[..], b"1/0/1\xff.pbf", b"1/0/\xd9", b"1/0/1\xd9", b"1/0/\xe0\xa5", b"1/\xff/0", b"\xff/0/0", b"1/0/\xf0\x9d\x9f", b"\xc0\xaf", b"1/0/\xed\xa0\x80", b"1/0/1\x80\x80"] {
+			let mut t = b"/tiles/all/".to_vec(); t.extend_from_slice(tail);
+			let r = raw_get_bytes(srv.port, &t, &[]);
+			if r.is_none() { col.violation("dropped-connection", &format!("GET /tiles/all/{}", hex(tail)), &format!("tilepath-bytes {}", hex(tail)), "no complete HTTP response"); }
+			else { col.bump("non-utf8 target answered", 1); }
 		}
 		// (2) every source: stored / missing / out-of-range coordinates x Accept-Encoding variants
 		for (id, f, c) in &ids {
